@@ -65,6 +65,7 @@ _OOO_NAMESPACES = {
     "xsi": "http://www.w3.org/2001/XMLSchema-instance",
 }
 _NUMBER_COLUMNS_REPEATED = "{" + _OOO_NAMESPACES["table"] + "}number-columns-repeated"
+_TABLE_CELLS = tuple("{" + _OOO_NAMESPACES["table"] + "}" + name for name in ("table-cell", "covered-table-cell"))
 _TABLE_ROW = "{" + _OOO_NAMESPACES["table"] + "}table-row"
 _TABLE_ROW_CONTAINERS = tuple(
     "{" + _OOO_NAMESPACES["table"] + "}" + name for name in ("table-header-rows", "table-row-group", "table-rows")
@@ -326,7 +327,8 @@ def ods_rows(source_ods_path, sheet=1):
         location.advance_sheet()
     for table_row in _ods_table_rows(table_element):
         row = []
-        for table_cell in _findall(table_row, "table:table-cell", namespaces=_OOO_NAMESPACES):
+        # NOTE: Cells hidden by a merged cell to their left or above (table:covered-table-cell) still take up a column.
+        for table_cell in (cell for cell in table_row if cell.tag in _TABLE_CELLS):
             repeated_text = table_cell.attrib.get(_NUMBER_COLUMNS_REPEATED, "1")
             try:
                 repeated_count = int(repeated_text)
